@@ -752,6 +752,11 @@ impl super::DiskFS for Disk {
         let mut dir = self.get_directory();
         debug!("removing password for {}",xname);
         let (user,name_string) = split_user_filename(xname)?;
+        // a name that is too long would be cut down to 8+3 characters, which can be the name of another file
+        if !is_name_valid(&name_string) {
+            error!("invalid CP/M filename");
+            return Err(Box::new(Error::BadFormat));
+        }
         let (name,typ) = string_to_file_name(&name_string);
         for i in 0..dir.num_entries() {
             if let Some(mut px) = dir.get_entry::<Password>(&Ptr::ExtentEntry(i)) {
